@@ -80,7 +80,7 @@ let rec content_of_sx (x : Sx.t) : content =
       | _ -> bad "keys" in
     Record (List.map content_of_sx cs, keys, z_of_sx n)
   | L [A "par"; A arr; A rn; c] ->
-    Par (akind_of arr, (if rn = "none" then None else Some (name_of_string rn)), content_of_sx c)
+    Par (akind_of arr, (if rn = "none" then None else Some (name_of_string (if rn = "%empty" then "" else rn))), content_of_sx c)
   | _ -> bad ("layout: " ^ Sx.to_string x)
 
 (* ---- values ---- *)
